@@ -46,6 +46,93 @@ def harness_run(sym):
                 sym.check(marks.count(m) <= 1, f"macro-body-line-ran-twice|template={t}", lambda: f"{t}: marks {marks}")
 
 
+# ---- generated macro programs -------------------------------------------------------------------------------
+def _gen_program(sym, names, redefine):
+    """Solver-chosen bodies (2 items each: a Mark or a call of any macro) for the macros `names`, two solver-chosen top-level calls."""
+    items = ["mark"] + names
+    bodies = {}
+    for m in names:
+        bodies[m] = []
+        for k in range(2):
+            it = items[sym.index(f"body_{m}{k}", len(items))]
+            bodies[m].append(("mark", f"{m}{k}") if it == "mark" else ("call", it))
+    calls = [names[sym.index(f"main_call{j}", len(names))] for j in range(2)]
+    lines = []
+    for m in names:
+        lines.append(f"Macro: {m}")
+        lines += [f"    Mark: {x}" if kind == "mark" else f"    Call macro: {x}" for kind, x in bodies[m]]
+    lines += ["Mark: M1", f"Call macro: {calls[0]}"]
+    top = [("define", m, bodies[m]) for m in names] + [("mark", "M1"), ("call", calls[0])]
+    if redefine:
+        lines += [f"Macro: {names[0]}", f"    Mark: {names[0]}9"]
+        top.append(("define", names[0], [("mark", f"{names[0]}9")]))
+    lines += ["Mark: M2", f"Call macro: {calls[1]}", "Mark: END"]
+    top += [("mark", "M2"), ("call", calls[1]), ("mark", "END")]
+    return "\n".join(lines) + "\n", top
+
+
+def _reference(top):
+    """(marks, failing) by the statement: a call runs the latest body once, in order; a call of a macro that is already
+    running (directly or indirectly) fails.  `guaranteed` = marks before the top-level call inside which the failure lies."""
+    table, marks, guaranteed = {}, [], 0
+
+    class Cycle(Exception):
+        pass
+
+    def call(m, stack):
+        if m in stack:
+            raise Cycle()
+        for kind, x in table[m]:
+            if kind == "mark":
+                marks.append(x)
+            else:
+                call(x, stack + [m])
+    for it in top:
+        if it[0] == "define":
+            table[it[1]] = it[2]
+        elif it[0] == "mark":
+            marks.append(it[1])
+        else:
+            guaranteed = len(marks)
+            try:
+                call(it[1], [])
+            except Cycle:
+                return marks, True, guaranteed
+    return marks, False, len(marks)
+
+
+def harness_generated(sym):
+    names = sym.shard["names"]
+    pc, top = _gen_program(sym, names, sym.shard.get("redefine", False))
+    want, fails, guaranteed = _reference(top)
+    with engine_rig(sym, pc) as rig:
+        e = rig.engine
+        rig.user("Start")
+        quiet = 0
+        for i in range(2 * (2 * len(want) + 12)):
+            rig.tick(0.1)
+            sym.check(not rig.tick_errors, "tick-raised|generated", lambda: f"{pc!r}: Engine.tick raised {rig.tick_errors[:1]}")
+            if e.has_error_state() or "END" in rig.marks():
+                quiet += 1
+                if quiet > 3:
+                    break
+        marks = rig.marks()
+        if not fails:
+            sym.check(not e.has_error_state(), "unexpected-method-error|generated", lambda: f"{pc!r}: method error {e.get_error_state_exception()!r}; marks {marks}")
+            sym.check(marks == want, "macro-trace|generated", lambda: f"{pc!r}: marks {marks}, expected {want}")
+        else:
+            # the statement does not say which call of the cycle fails: the outermost (static detection) up to the one closing the cycle
+            sym.check(e.has_error_state(), "recursive-call-did-not-fail|generated", lambda: f"{pc!r}: no method error; marks {marks}")
+            sym.check(marks == want[:len(marks)] and len(marks) >= guaranteed, "recursive-call-trace|generated",
+                      lambda: f"{pc!r}: marks {marks}; expected a prefix (at least {guaranteed} long) of {want}")
+
+
+def _shards_generated(tier):
+    if tier == "quick":
+        return [{"names": ["A", "B"], "redefine": r} for r in (False, True)]
+    return [{"names": ["A", "B", "C"], "redefine": r} for r in (False, True)] + [{"names": ["A", "B"], "redefine": r} for r in (False, True)]
+
+
 EDIT_PCODE = "Macro: X\n    Mark: X1\n    Wait: 0.5s\n    Mark: X2\nMark: M1\nCall macro: X\nMark: M2\nCall macro: X\nMark: END\n"
 EDITS = {
     "change_body": lambda lines: [ln if ln.strip() != "Mark: X2" else "    Mark: X9" for ln in lines],
@@ -113,6 +200,15 @@ OBLIGATIONS = [
                bounds={"quick": "6 templates: redefinition between calls, nested call, three calls with a UOD command in the body, direct / mutual / 3-cycle recursion",
                        "thorough": "same"},
                assumptions=["tick interval fixed", "fake hardware; log statements removed at import"]),
+    Obligation(name="generated", kind="crosshair", harness=harness_generated, shards=_shards_generated,
+               cpu_budget={"quick": 300.0, "thorough": 3000.0},
+               encoded=["openpectus.lang.exec.pinterpreter:PInterpreter.visit_MacroNode", "openpectus.lang.exec.pinterpreter:PInterpreter.visit_CallMacroNode",
+                        "openpectus.lang.model.ast:MacroNode.macro_calling_macro"],
+               symbolic="every body item of every macro (a Mark or a call of any of the macros; selectors), the two top-level calls (selectors)",
+               bounds={"quick": "2 macros with 2 body items each (all 81 call graphs) x all 4 pairs of top-level calls, with and without a redefinition of the first macro between the calls",
+                       "thorough": "3 macros with 2 body items each (all 4096 call graphs) x all 9 pairs of top-level calls, with and without redefinition"},
+               assumptions=["reference = the statement read dynamically (a call of a macro that is already running fails); an implementation that fails earlier, at an enclosing call of the same cycle, is accepted",
+                            "tick interval fixed; fake hardware; log statements removed at import"]),
     Obligation(name="edit_started_macro", kind="crosshair", harness=harness_edit, shards=lambda tier: [{"edit": k} for k in EDITS],
                cpu_budget={"quick": 300.0, "thorough": 900.0},
                encoded=["openpectus.engine.method_manager:MethodManager._validate_liveedit_method", "openpectus.engine.engine:Engine.set_method",
